@@ -187,12 +187,16 @@ func H_C12_responderPremium() {
 	if ev == Event_ActionSucceeded {
 		zzverif.Reach("responder.agreed")
 		r := env.w.rates
+		op := vpremium.SwapOut
+		if swapIn {
+			op = vpremium.SwapIn
+		}
 		var ppm int64
 		switch {
 		case r.peerSet:
-			ppm = r.peerPpm
+			ppm = r.peer(op)
 		case r.defSet:
-			ppm = r.defPpm
+			ppm = r.def(op)
 		case swapIn:
 			ppm = 0 // built-in defaults: swap-in 0 ppm on both chains
 		case liquid:
